@@ -1,0 +1,43 @@
+//go:build verif
+
+// Contracts (machine-checked specifications) for package registry, consumed
+// by the verification-condition generator in /verif/govc. Comment-only.
+package registry
+
+//@ -- spec vocabulary ------------------------------------------------------------------------
+//@ -- canonical import path: the spec function is the verified function itself (functional clause)
+//@ define strip(s) = uf("registry.stripVendorPath", String, s)
+//@ define canon(pkg) = strip(pkg.Path())
+//@ define qual(p) = ite(p == nil, "", ite(p.Alias != "", p.Alias, p.pkg.Name()))
+//@ define pathOf(p) = ite(p == nil, "", canon(p.pkg))
+
+//@ func registry.stripVendorPath -> s
+//@   props C11
+//@   safety C19
+//@   functional registry.stripVendorPath
+//@   ensures no-vendor: !contains(p, "/vendor/") ==> s == p
+
+//@ func registry.Package.Qualifier -> q
+//@   props C10 C11
+//@   safety C19
+//@   requires p != nil && p.Alias == "" ==> p.pkg != nil
+//@   ensures def: q == qual(p)
+//@   ensures nil-empty: p == nil ==> q == ""
+//@   ensures alias-wins: p != nil && p.Alias != "" ==> q == p.Alias
+//@   ensures name: p != nil && p.Alias == "" ==> q == p.pkg.Name()
+
+//@ func registry.Package.Path -> s
+//@   props C11
+//@   safety C19
+//@   requires p != nil ==> p.pkg != nil
+//@   ensures def: s == pathOf(p)
+
+//@ func registry.reverse
+//@   props C11
+//@   safety C19
+//@   modifies A:string#
+//@   loop 1 invariant bounds: -1 <= i && i <= len(a)/2 - 1
+//@   loop 1 invariant swapped: forall(k, i < k && k <= len(a)/2 - 1 ==> a[k] == old(a[len(a)-1-k]) && a[len(a)-1-k] == old(a[k]))
+//@   loop 1 invariant untouched: forall(k, 0 <= k && k < len(a) && (k <= i || (len(a)/2 - 1 < k && k < len(a) - len(a)/2) || len(a)-1-i <= k) ==> a[k] == old(a[k]))
+//@   loop 1 decreases i + 1
+//@   ensures reversed: forall(k, 0 <= k && k < len(a) ==> a[k] == old(a[len(a)-1-k]))
